@@ -1,0 +1,16 @@
+//go:build verif
+
+package resolver
+
+// VerifNormalizeAddrs exposes normalizeAddrs to the verification harness.
+func VerifNormalizeAddrs(addrs []string) ([]string, error) { return normalizeAddrs(addrs) }
+
+// VerifAddressSeq returns the addresses the n next DNS dials of a resolver over addrs go to.
+func VerifAddressSeq(addrs []string, n int) []string {
+	r := &resolver{addrs: addrs}
+	out := make([]string, n)
+	for i := range out {
+		out[i] = r.address()
+	}
+	return out
+}
